@@ -29,6 +29,8 @@ pub struct Corpus {
     pub rejected: Vec<(String, String)>,
     /// operator -> (compiled as pull, compiled as push) over all compiled variants
     pub colors: BTreeMap<String, (u32, u32)>,
+    /// C22 only: variant families of the rustc-level compile-agreement leg
+    pub rustc_families: Vec<(String, Vec<(String, Program)>)>,
     pub generated: usize,
     pub runs_per_program: u64,
     /// programs regenerated because rustc cannot type them (see `unsupported_shape`)
@@ -98,14 +100,18 @@ pub fn generate(prop: &str, seed: u64, tier: &str, programs: Option<usize>) -> C
         entries: vec![],
         rejected: vec![],
         colors: BTreeMap::new(),
+        rustc_families: vec![],
         generated: n,
         runs_per_program: runs_per_program(prop, tier),
         regenerated: 0,
         variants_dropped: 0,
     };
+    if prop == "C22" && std::env::var("E3_NO_RUSTC_LEG").is_err() {
+        let mut sim = Sim::seeded(mix(&[seed, fnv_str("e3_ticksim/rustc_families")]));
+        c.rustc_families = e3_core::pgen::rustc_families(&mut sim);
+    }
     for idx in 0..n {
-        // a program that rustc cannot type (see `unsupported_shape`) is regenerated from the next
-        // attempt number; everything stays a pure function of (seed, property, index)
+        // everything is a pure function of (seed, property, index[, attempt])
         let mut attempt = 0;
         loop {
             let mut vs = gen_entry(prop, seed, idx, attempt);
@@ -116,20 +122,6 @@ pub fn generate(prop: &str, seed: u64, tier: &str, programs: Option<usize>) -> C
                 attempt += 1;
                 continue;
             }
-            let base_bad = unsupported_shape(&vs[0].1);
-            if base_bad.is_some() && attempt < 20 {
-                attempt += 1;
-                c.regenerated += 1;
-                continue;
-            }
-            // shape variants that push a fragile operator to the push side are dropped
-            let before = vs.len();
-            let mut k = 0;
-            vs.retain(|v| {
-                k += 1;
-                k == 1 || unsupported_shape(&v.1).is_none()
-            });
-            c.variants_dropped += before - vs.len();
             // E3_INJECT_SPLIT=1 (harness self-test only, never set by the registered checks): give p0 a
             // variant that dfir_lang rejects (a same-tick cycle), to exercise the compile-split path
             if idx == 0 && std::env::var("E3_INJECT_SPLIT").is_ok() {
@@ -150,20 +142,6 @@ pub fn generate(prop: &str, seed: u64, tier: &str, programs: Option<usize>) -> C
         }
     }
     c
-}
-
-/// Operators whose *push-side* code generation rustc cannot type without help from the user
-/// (`multiset_delta`: its push closure calls `item.clone()` on a not yet inferred type and
-/// `dfir_pipes::push::filter` does not tie `Item` to the downstream). Such programs are rejected
-/// by rustc, not by dfir_lang; the generator avoids them (recorded in e3_ticksim/FINDINGS.md).
-pub fn unsupported_shape(p: &Program) -> Option<String> {
-    let info = precheck(&dfir_text(p)).ok()?;
-    for op in ["multiset_delta"] {
-        if info.colors.get(op).is_some_and(|c| c.1 > 0) {
-            return Some(format!("{op} compiled push-side"));
-        }
-    }
-    None
 }
 
 fn add_entry(c: &mut Corpus, name: String, vs: Vec<(String, Program)>) {
@@ -218,7 +196,12 @@ pub fn from_replay(prop: &str, path: &Path) -> Result<Corpus, String> {
     if vs.is_empty() {
         return Err("replay file carries no program AST".into());
     }
-    let mut c = Corpus { prop: prop.to_string(), entries: vec![], rejected: vec![], colors: BTreeMap::new(), generated: 1, runs_per_program: 1, regenerated: 0, variants_dropped: 0 };
+    let mut c = Corpus { prop: prop.to_string(), entries: vec![], rejected: vec![], colors: BTreeMap::new(), rustc_families: vec![], generated: 1, runs_per_program: 1, regenerated: 0, variants_dropped: 0 };
+    if let Some(fam) = scenario.strip_prefix("rustc_") {
+        // a family of the rustc-level compile-agreement leg: rebuilt from the variants' ASTs
+        c.rustc_families.push((fam.to_string(), vs));
+        return Ok(c);
+    }
     add_entry(&mut c, scenario, vs);
     if c.entries.is_empty() {
         return Err(format!("program in replay file is rejected by dfir_lang on this tree: {:?}", c.rejected));
